@@ -13,6 +13,8 @@
 # License for the specific language governing permissions and limitations
 # under the License.
 
+from kmip.core.messages import contents
+
 
 class OperationResult(object):
 
@@ -22,15 +24,18 @@ class OperationResult(object):
                  result_message=None):
         self.result_status = result_status
 
+        # The result reason and message are optional in a response. Callers
+        # read their values unconditionally when the status is not Success,
+        # so keep empty value holders when they are absent.
         if result_reason is not None:
             self.result_reason = result_reason
         else:
-            self.result_reason = None
+            self.result_reason = contents.ResultReason()
 
         if result_message is not None:
             self.result_message = result_message
         else:
-            self.result_message = None
+            self.result_message = contents.ResultMessage()
 
 
 class CreateResult(OperationResult):
